@@ -31,7 +31,7 @@ func (in *Instance) GenesisFromAbstract(g M) types.GenesisState {
 		gs.SendingAndReceivingMessagesPaused = &types.SendingAndReceivingMessagesPaused{Paused: v == 1}
 	}
 	if v, ok := opt(g, "maxBody"); ok {
-		gs.MaxMessageBodySize = &types.MaxMessageBodySize{Amount: uint64(v)}
+		gs.MaxMessageBodySize = &types.MaxMessageBodySize{Amount: SizeVal(v)}
 	}
 	if v, ok := opt(g, "nextNonce"); ok {
 		gs.NextAvailableNonce = &types.Nonce{Nonce: t.Nonce(v)}
@@ -79,7 +79,7 @@ func (in *Instance) ProjectGenesis(gs *types.GenesisState) M {
 		g["sr"] = b2i(gs.SendingAndReceivingMessagesPaused.Paused)
 	}
 	if gs.MaxMessageBodySize != nil {
-		g["maxBody"] = int(gs.MaxMessageBodySize.Amount)
+		g["maxBody"] = SizeSym(gs.MaxMessageBodySize.Amount)
 	}
 	if gs.NextAvailableNonce != nil {
 		g["nextNonce"] = t.NonceSym(gs.NextAvailableNonce.Nonce)
